@@ -77,6 +77,10 @@ package app
 //@ func (*runtimeState).loadAuth
 //@   requires s != nil
 //@   modifies *
+//@   sets loadOK := result == nil
+//@   ensures [C18:failed_load_enters_no_write_section] result != nil ==> writeSections == old(writeSections)
+//@   ensures [C18:successful_load_is_one_write_section] result == nil ==> writeSections == old(writeSections) + 1
+//@   ensures [recorded] loadOK == (result == nil)
 //@   calls InheritReplayState requires [C09:replay_state_kept] heldW() && arg1 == s.hmacByRoute[route] && arg0 == hmacByRoute[route]
 
 // ---- C11: which allowlist is consulted ----
@@ -164,3 +168,51 @@ package app
 //@   ensures [C18:target_never_written_directly] directWrites == old(directWrites)
 //@ func syncDir$1
 //@   modifies tmpClosed
+
+//@ spec
+//@ ghost var loadOK bool
+
+//@ func config.Parse
+//@   trusted
+//@ func config.Compile
+//@   trusted
+//@ func config.Format
+//@   trusted
+//@ func config.FormatValidationText
+//@   trusted
+//@ func requiresRestartForReload
+//@   trusted
+//@ func secrets.LoadRef
+//@   trusted
+//@ func secrets.(Set).Validate
+//@   trusted
+//@ func ingress.NewBasicAuth
+//@   trusted
+//@   ensures result == nil || fresh(result)
+//@ func ingress.NewForwardAuth
+//@   trusted
+//@   ensures result != nil && fresh(result)
+//@ func ingress.NewHMACAuth
+//@   trusted
+//@   ensures result != nil && fresh(result)
+//@ func (*adaptiveAdmissionController).updateConfig
+//@   trusted
+
+//@ func (*runtimeState).configureIngressRateLimits
+//@   monitor locked
+//@   requires s != nil
+//@   modifies s.ingressGlobalLimit, field(s.ingressRouteLimits)
+
+//@ func (*runtimeState).updateAll
+//@   requires s != nil
+//@   modifies s.routes, field(s.pathToRoute), s.trendSignals, s.adaptiveBackpressure, s.ingressGlobalLimit, field(s.ingressRouteLimits), writeSections, lockSections
+//@   ensures [C18:switches_in_one_write_section] writeSections == old(writeSections) + 1
+//@   ensures [C18:routes_and_mapping_from_the_same_config] s.routes == compiled.Routes && s.pathToRoute == compiled.PathToRoute
+
+//@ func reloadConfig
+//@   requires state != nil
+//@   modifies *
+//@   calls updateAll requires [C18:update_only_after_successful_load] loadOK
+//@   ensures [C18:failure_returns_running_config] !result1 ==> result0 == running
+//@   ensures [C18:failure_enters_no_write_section] !result1 ==> writeSections == old(writeSections)
+//@   ensures [C18:success_switches_in_one_write_section] result1 ==> writeSections == old(writeSections) + 1
